@@ -420,6 +420,10 @@ func exec(op string) string {
 				if n2 != 1 {
 					rec.x = "XN-count"
 				}
+				if hpack.VerifSavedLen(dec2) > i+1 { // more kept than ever delivered: stop before it explodes
+					err2 = fmt.Errorf("savebuf")
+					break
+				}
 			}
 			if err2 == nil {
 				err2 = dec2.Close()
